@@ -401,4 +401,44 @@ def enqueuedOn (chain : String) : List Res → List Call
   | .ok :: rs => enqueuedOn chain rs
   | .rejected :: rs => enqueuedOn chain rs
 
+/-! ### vocabulary of the property statements -/
+
+/-- a chain state before any scheduler activity: no jobs; the environment (chains, their queues, the
+    snapshot) is arbitrary -/
+def State.init (order : List String) (chain : Env) (snap : Nat) : State :=
+  { jobs := [], order := order, chain := chain, snap := snap }
+
+/-- the address `evm.ExecuteJob` takes for the requester: `SenderAddress` if non-nil, else
+    `ContractAddress` if non-nil, else none at all (`Caller.bytes` is this, with `[]` for none) -/
+def Caller.addr (c : Caller) : Option Bytes := c.sender.orElse fun _ => c.contract
+
+/-- the callers the three message-level entry points build: `MsgExecuteJob` → `Caller.account a` with
+    `a` the signer's account address, the wasm bindings → `Caller.wasm a` with `a` the contract address;
+    an SDK address is non-empty and at most 32 bytes long (20 for accounts, 32 for contracts) -/
+def Caller.entryPoint (c : Caller) : Prop :=
+  ∃ a : Bytes, a ≠ [] ∧ a.length ≤ 32 ∧ (c = Caller.account a ∨ c = Caller.wasm a)
+
+/-- the execution request an operation carries: job id, supplied payload, caller -/
+def Op.request : Op → Option (Bytes × Supplied × Caller)
+  | .exec id sup caller => some (id, sup, caller)
+  | .execWasm addr id b => some (id, .bytes b, Caller.wasm addr)
+  | .execLegacy addr id b => some (id, .bytes b, Caller.wasm addr)
+  | _ => none
+
+/-- the payload a successful request runs with: the supplied bytes if the job is modifiable and bytes were
+    supplied, the stored payload otherwise -/
+def chosen (j : Job) (sup : Supplied) : Bytes :=
+  match j.modifiable, sup with
+  | true, .bytes b => b
+  | _, _ => j.payload
+
+/-- "the message calls job `j` for the requester recorded in it": chain, contract, ABI and MEV flag are the
+    job's; the payload is a payload `p` followed by the 32-byte left-padded address of the requester the
+    message itself names (`SenderAddress`, else `ContractAddress`); `p` is the job's stored payload unless
+    the job is modifiable -/
+def Call.fromJob (c : Call) (j : Job) : Prop :=
+  c.chain = j.chain ∧ c.contract = j.contract ∧ c.abi = j.abi ∧ c.mev = j.mev ∧
+  ∃ p who : Bytes, who = ((c.sender.orElse fun _ => c.contractAddr).getD []) ∧ who.length ≤ 32 ∧
+    c.payload = p ++ leftPad32 who ∧ (leftPad32 who).length = 32 ∧ (j.modifiable = false → p = j.payload)
+
 end Paloma.Scheduler
